@@ -7,8 +7,9 @@ package chainsim
 import (
 	"fmt"
 
-	nodesTypes "github.com/pokt-network/pocket-core/x/nodes/types"
+	sdk "github.com/pokt-network/pocket-core/types"
 	appsTypes "github.com/pokt-network/pocket-core/x/apps/types"
+	nodesTypes "github.com/pokt-network/pocket-core/x/nodes/types"
 	abci "github.com/tendermint/tendermint/abci/types"
 )
 
@@ -65,6 +66,25 @@ func (s *Sim) interfere(q Interf, phase string) {
 				_ = n.App.Query(abci.RequestQuery{Path: "/store/acc/subspace", Data: []byte{0x01}, Height: h})
 			case "version":
 				_ = n.App.Query(abci.RequestQuery{Path: "app/version"})
+			case "custom_app":
+				// the ABCI custom-query route (what CLI/light clients reach through abci_query); its
+				// context is not a PrevCtx even at a past height
+				a, _ := sdk.AddressFromHex(addr)
+				_ = n.App.Query(abci.RequestQuery{Path: "custom/application/application", Data: appsTypes.ModuleCdc.MustMarshalJSON(appsTypes.QueryAppParams{Address: a}), Height: h})
+			case "custom_apps":
+				_ = n.App.Query(abci.RequestQuery{Path: "custom/application/applications", Data: appsTypes.ModuleCdc.MustMarshalJSON(appsTypes.QueryApplicationsWithOpts{Page: 1, Limit: 100}), Height: h})
+			case "custom_node":
+				a, _ := sdk.AddressFromHex(addr)
+				_ = n.App.Query(abci.RequestQuery{Path: "custom/pos/validator", Data: nodesTypes.ModuleCdc.MustMarshalJSON(nodesTypes.QueryValidatorParams{Address: a}), Height: h})
+			case "custom_nodes":
+				_ = n.App.Query(abci.RequestQuery{Path: "custom/pos/validators", Data: nodesTypes.ModuleCdc.MustMarshalJSON(nodesTypes.QueryValidatorsParams{Page: 1, Limit: 100}), Height: h})
+			case "custom_balance":
+				a, _ := sdk.AddressFromHex(addr)
+				_ = n.App.Query(abci.RequestQuery{Path: "custom/pos/account_balance", Data: nodesTypes.ModuleCdc.MustMarshalJSON(nodesTypes.QueryAccountParams{Address: a}), Height: h})
+			case "custom_params":
+				_ = n.App.Query(abci.RequestQuery{Path: "custom/pos/parameters", Height: h})
+				_ = n.App.Query(abci.RequestQuery{Path: "custom/application/parameters", Height: h})
+				_ = n.App.Query(abci.RequestQuery{Path: "custom/pocketcore/parameters", Height: h})
 			}
 			if q.Height > 0 {
 				s.res.Probe("historical_query")
